@@ -6,13 +6,26 @@ from . import mir
 from .absint import Analyzer, PRIM, AV, TOP, fits, LEN_TOP
 
 
+def _rb(ty):
+    from .absint import ranged_bounds
+    return ranged_bounds(ty)
+
+
+def _decl(ty):
+    b = _rb(ty)
+    return (b[1], b[2]) if b else PRIM[ty]
+
+
 class Auto:
     def __init__(self, prog, contracts=None, hooks=None, param_contracts=None):
         from . import contracts as C
         self.prog = prog
         self.contracts = C.FIELD if contracts is None else contracts
         self.param_contracts = C.PARAM if param_contracts is None else param_contracts
-        self.hooks = hooks or {}
+        if hooks is None:
+            from .e2 import E2Hooks
+            hooks = {"call": E2Hooks().call}
+        self.hooks = hooks
         self._an = {}
         self._du = {}
         self._sum = {}
@@ -65,7 +78,8 @@ class Auto:
             ins = cg.redges.get(f.key, [])
             if not ins or any(k != "call" for (_, k, _) in ins):
                 continue
-            idxs = [i for i in range(1, f["argc"] + 1) if f["locals"][i]["ty"] in PRIM and f["locals"][i]["ty"] not in ("bool", "char")]
+            idxs = [i for i in range(1, f["argc"] + 1)
+                    if (f["locals"][i]["ty"] in PRIM and f["locals"][i]["ty"] not in ("bool", "char")) or _rb(f["locals"][i]["ty"])]
             if idxs:
                 elig[f.path] = (f, idxs)
         base = dict(self.param_contracts)
@@ -92,7 +106,7 @@ class Auto:
                     f, idxs = elig[t["path"]]
                     for i in idxs:
                         v = an.read_op(st, t["args"][i - 1]) if i - 1 < len(t["args"]) else None
-                        iv = v.iv if v is not None and v.iv is not None else PRIM[f["locals"][i]["ty"]]
+                        iv = v.iv if v is not None and v.iv is not None else _decl(f["locals"][i]["ty"])
                         old = acc.get((t["path"], i))
                         acc[(t["path"], i)] = iv if old is None else (min(old[0], iv[0]), max(old[1], iv[1]))
                         if verify:
@@ -105,8 +119,8 @@ class Auto:
             nxt = {}
             for (path, i), iv in acc.items():
                 f, _ = elig[path]
-                tr = PRIM[f["locals"][i]["ty"]]
-                if iv != tr:
+                tr = _decl(f["locals"][i]["ty"])
+                if iv != tr and iv[0] >= tr[0] and iv[1] <= tr[1]:
                     nxt.setdefault(path, {})[i] = iv
             cur = nxt
         # verification: drop whatever is not inductive
